@@ -857,7 +857,7 @@ func (x *Exec) tableApply(env *SpecEnv, fn *SpecFn, args []ast.Expr) Val {
 		return nil
 	}
 	rsort := scalarSort(rt)
-	if rsort != SBool && rsort != SInt {
+	if rsort != SBool && rsort != SInt && rsort != SString {
 		return nil
 	}
 	ck := fn.Pkg + "::" + fn.Name
@@ -876,15 +876,43 @@ func (x *Exec) tableApply(env *SpecEnv, fn *SpecFn, args []ast.Expr) Val {
 	name := quoteName("tbl:" + fn.Name)
 	if !x.sc.seen[name] {
 		x.sc.seen[name] = true
-		x.sc.emit("(declare-fun " + name + " (Int) " + string(rsort) + ")")
-		var b strings.Builder
-		b.WriteString("(assert (and")
-		b.WriteString(" (= (" + name + " 0) " + rows[0] + ")")
-		for i := blk[0]; i <= blk[1]; i++ {
-			b.WriteString(" (= (" + name + " " + strconv.Itoa(i) + ") " + rows[i-blk[0]+1] + ")")
+		// Compressed macro: group the ids by value; the most frequent value is the default.
+		// (Ground facts over an uninterpreted function were measured to be far slower: every
+		// symbolic application has to be compared with every numeral row.)
+		groups := map[string][]int{}
+		var order []string
+		add := func(id int, v string) {
+			if _, ok := groups[v]; !ok {
+				order = append(order, v)
+			}
+			groups[v] = append(groups[v], id)
 		}
-		b.WriteString("))")
-		x.sc.emit(b.String())
+		add(0, rows[0])
+		for i := blk[0]; i <= blk[1]; i++ {
+			add(i, rows[i-blk[0]+1])
+		}
+		def := order[0]
+		for _, v := range order {
+			if len(groups[v]) > len(groups[def]) {
+				def = v
+			}
+		}
+		body := def
+		for _, v := range order {
+			if v == def {
+				continue
+			}
+			var eqs []string
+			for _, id := range groups[v] {
+				eqs = append(eqs, "(= f!t "+strconv.Itoa(id)+")")
+			}
+			cond := eqs[0]
+			if len(eqs) > 1 {
+				cond = "(or " + strings.Join(eqs, " ") + ")"
+			}
+			body = "(ite " + cond + " " + v + " " + body + ")"
+		}
+		x.sc.emit("(define-fun " + name + " ((f!t Int)) " + string(rsort) + " " + body + ")")
 	}
 	v := x.evalExpr(env, args[0])
 	var id *Term
@@ -895,6 +923,15 @@ func (x *Exec) tableApply(env *SpecEnv, fn *SpecFn, args []ast.Expr) Val {
 		id = fv.t
 	default:
 		return nil
+	}
+	// a literal argument is looked up at translation time
+	if n, ok := smallNum(id); ok {
+		if n == 0 {
+			return &Scalar{rt, &Term{rows[0], rsort}}
+		}
+		if int(n) >= blk[0] && int(n) <= blk[1] {
+			return &Scalar{rt, &Term{rows[int(n)-blk[0]+1], rsort}}
+		}
 	}
 	return &Scalar{rt, app(rsort, name, id)}
 }
@@ -928,7 +965,7 @@ func (x *Exec) buildTable(fn *SpecFn, pt types.Type, blk [2]int, isByte bool) []
 			}
 			r := x.evalExpr(inner, fn.expr())
 			s, isS := r.(*Scalar)
-			if !isS || !(isLitTrue(s.t) || isLitFalse(s.t) || isNumLit(s.t)) {
+			if !isS || !(isLitTrue(s.t) || isLitFalse(s.t) || isNumLit(s.t) || isStrLit(s.t)) {
 				ok = false
 				return
 			}
@@ -984,3 +1021,5 @@ func (x *Exec) opaqueApply(env *SpecEnv, fn *SpecFn, args []ast.Expr) Val {
 	}
 	return x.scalarVal(rt, app(scalarSort(rt), name, ts...))
 }
+
+func isStrLit(t *Term) bool { return t.Sort == SString && strings.HasPrefix(t.S, "\"") }
